@@ -405,8 +405,78 @@ func extJSONMarshal(fr *frame, args []value) value {
 			return tuple{strBytes(string(b)), nilErr()}
 		}
 	}
+	// concrete trees of map[string]any / []any / scalars (what a decoded document is made of)
+	if h, ok := toHostJSON(itf); ok {
+		b, err := json.Marshal(h)
+		if err != nil {
+			return tuple{[]value(nil), i.mkError(err.Error())}
+		}
+		return tuple{strBytes(string(b)), nilErr()}
+	}
 	i.abort("json.Marshal stub: operand of type %s is not modelled (reflection)", itf.t)
 	return nil
+}
+
+// toHostJSON rebuilds a host value from an interface value holding nil, a concrete basic scalar,
+// a []any or a map[string]any of such; ok is false for anything else (symbolic leaves included).
+func toHostJSON(itf iface) (any, bool) {
+	if itf.t == nil {
+		return nil, true
+	}
+	switch u := itf.t.Underlying().(type) {
+	case *types.Basic:
+		if _, named := itf.t.(*types.Named); named {
+			return nil, false
+		}
+		switch v := itf.v.(type) {
+		case bool, int, int64, float64, string:
+			return v, true
+		}
+	case *types.Slice:
+		el, isI := u.Elem().Underlying().(*types.Interface)
+		xs, isS := itf.v.([]value)
+		if _, named := itf.t.(*types.Named); named || !isI || el.NumMethods() != 0 || !isS {
+			return nil, false
+		}
+		if xs == nil {
+			return []any(nil), true
+		}
+		out := make([]any, len(xs))
+		for k := range xs {
+			e, _ := xs[k].(iface)
+			h, ok := toHostJSON(e)
+			if !ok {
+				return nil, false
+			}
+			out[k] = h
+		}
+		return out, true
+	case *types.Map:
+		el, isI := u.Elem().Underlying().(*types.Interface)
+		kb, isB := u.Key().(*types.Basic)
+		m, isM := itf.v.(*omap)
+		if _, named := itf.t.(*types.Named); named || !isI || el.NumMethods() != 0 || !isB || kb.Kind() != types.String || !isM {
+			return nil, false
+		}
+		if m == nil {
+			return map[string]any(nil), true
+		}
+		out := map[string]any{}
+		for k := range m.keys {
+			if m.dead[k] {
+				continue
+			}
+			ks, isStr := m.keys[k].(string)
+			e, _ := m.vals[k].(iface)
+			h, ok := toHostJSON(e)
+			if !isStr || !ok {
+				return nil, false
+			}
+			out[ks] = h
+		}
+		return out, true
+	}
+	return nil, false
 }
 
 // ---- goccy/go-yaml
